@@ -99,10 +99,13 @@ def main():
         if keep:
             d = os.path.join(VERIF, "seeded", name)
             os.makedirs(d, exist_ok=True)
-            shutil.copy(patch, os.path.join(d, "patch.diff"))
-            shutil.copy(demo, os.path.join(d, "demo.py"))
+            def cp(a, b):
+                if os.path.abspath(a) != os.path.abspath(b):
+                    shutil.copy(a, b)
+            cp(patch, os.path.join(d, "patch.diff"))
+            cp(demo, os.path.join(d, "demo.py"))
             if notes and os.path.exists(notes):
-                shutil.copy(notes, os.path.join(d, "notes.txt"))
+                cp(notes, os.path.join(d, "notes.txt"))
                 meta["needs_to_manifest"] = open(notes).read().strip()
             meta["what_was_run"] = ("scratch worktree of /repo HEAD: demo.py exit 0 on the clean tree; `git apply patch.diff`; pinned pytest command -> 322 passed; "
                                     "demo.py exits non-zero; then every claimed check with VERIF_REPO=<patched worktree>")
